@@ -92,7 +92,7 @@ func cfgC11(tier string) e1Cfg {
 
 func cfgC12(tier string) e1Cfg {
 	t := baseTxn()
-	t.PKeyOps, t.PInsert, t.PUpdate, t.PDelete, t.PAbort, t.MaxOps, t.MaxLive, t.SwallowPct = 35, 25, 25, 15, 15, 6, 40, 35
+	t.PKeyOps, t.PInsert, t.PUpdate, t.PDelete, t.PAbort, t.MaxOps, t.MaxLive, t.SwallowPct, t.DupDelPct = 35, 25, 25, 15, 15, 6, 40, 35, 15
 	return e1Cfg{Prop: "C12", Kinds: []Kind{KInt, KString, KBool}, KeyedPct: 100, LayoutPct: 12, Steps: steps(tier, 220, 700), Pool: "small", Txn: t, DumpEvery: 1,
 		Oracles: oracleSet("keys", "live"), Caps: []int{1, 64, 1000}, PRestore: 1, Interlope: true}
 }
